@@ -34,6 +34,7 @@ RULE = (
 )
 RULE += (" " + 'A quarter of the cases first converts a rule from another log source with the same backend and pipeline objects (the rewrite must not depend on what was processed before).')
 RULE += (" Values include long strings (40-75 characters) with 17-33 matches of every replacement pattern, long camel-case runs and long paths.")
+RULE += (" Items also carry the cased modifier (alone and with contains).")
 ASSUMPTIONS = [
     "the rewrite engine in vf/props/c12.py states the documented meaning of each transformation",
     "negated items under one-to-many mappings, case-sensitive strings under value transformations and "
@@ -564,12 +565,12 @@ def docs(draw, hashes=False, placeholders=False):
 
     def key_value():
         f = draw(st.sampled_from(FIELDS))
-        mod = draw(st.sampled_from(["", "", "|contains", "|startswith", "|endswith", "|contains|all", "|re", "|fieldref", "|neq"]))
+        mod = draw(st.sampled_from(["", "", "|contains", "|startswith", "|endswith", "|contains|all", "|re", "|fieldref", "|neq", "|cased", "|contains|cased"]))
         if mod == "|re":
             return f + mod, draw(st.sampled_from(["a.*b", "^x", "a|b"]))
         if mod == "|fieldref":
             return f + mod, draw(st.sampled_from(FIELDS))
-        if mod in ("|contains", "|startswith", "|endswith"):
+        if mod in ("|contains", "|startswith", "|endswith", "|cased", "|contains|cased"):
             return f + mod, draw(st.sampled_from(STRS[:9] + LONGS))
         if mod == "|contains|all":
             return f + mod, draw(st.lists(st.sampled_from(STRS[:6]), min_size=2, max_size=3))
